@@ -1,6 +1,6 @@
 (* C08 -- Blocks render independently, in order (partial: see MANIFEST level text). *)
 From Rimu Require Import Base Unicode Regex RegexAnalysis RegexParse Str Types Tables Guards State Inline Block
-  Frame FrameBlock FrameInst OptionsLemmas MiscLemmas MoreLemmas Plain TableFacts PlainDoc Lines RegexSem MatchLemmas MatchExact ExactTable Locality CodeBlock HeaderDoc ParaDoc Compose QuoteBlock DivBlock.
+  Frame FrameBlock FrameInst OptionsLemmas MiscLemmas MoreLemmas Plain TableFacts PlainDoc Lines RegexSem MatchLemmas MatchExact ExactTable Locality CodeBlock HeaderDoc ParaDoc Compose QuoteBlock DivBlock ParaInstances.
 
 (* the block loop emits the rendering of the first block followed by the rendering of the rest,
    from the state and reader the first block left *)
@@ -250,3 +250,16 @@ Theorem C08_division_paragraph_document : forall n l R s, para_line (ienv_of s) 
   doc_render (S (S (S (S (S (S (S n))))))) (dfence ++ 10 :: l ++ 10 :: dfence) s = Ok ($"<p>" ++ R ++ $"</p>", div_open s).
 Proof. exact div_paragraph_document. Qed.
 Print Assumptions C08_division_paragraph_document.
+
+Theorem C08_header_then_plain_paragraph : forall n k doc mk title l s,
+  quiet_default s -> header_ids_off s -> marker_ok mk -> title_ok title -> safe_line l ->
+  doc_loop (S (S (S (S n)))) doc (S (S (S k))) [hd_line mk title; []; l] s =
+  Ok (header_html mk title ++ [10] ++ $"<p>" ++ escape l ++ $"</p>", s).
+Proof. exact header_then_plain_paragraph. Qed.
+Print Assumptions C08_header_then_plain_paragraph.
+
+(* the paragraph-line conditions hold of plain, emphasis and tag lines (and of invocation lines: C11), so every theorem above
+   that takes a paragraph line applies to them *)
+Theorem C08_plain_is_paragraph_line : forall e l, defaults e -> safe_line l -> para_line e l (escape l).
+Proof. exact plain_para_line. Qed.
+Print Assumptions C08_plain_is_paragraph_line.
